@@ -339,8 +339,11 @@ def nested_string_attacks():
             vals.append(pre + q + payload)
             vals.append(pre + q + payload + q)
     out = []
-    for v in vals:
-        for wrap in ('x = f"{%s}"', "x = f'{a.count(%s)}'", 'x = f"{%s!r:>{w}}"', "x = f'{b}{%s}{c}'", 'x = f"{[%s][0]}"'):
+    wraps = ('x = f"{%s}"', "x = f'{a.count(%s)}'", 'x = f"{%s!r:>{w}}"', "x = f'{b}{%s}{c}'", 'x = f"{[%s][0]}"')
+    # the same values after runs of line breaks / tabs: where a long-quoted literal with real line breaks would be the shorter spelling
+    broken = [(lead + v, wraps[:2]) for lead in ('\n\n', '\n\r\n\n\n\n', '\t\n\t\n\t') for v in vals]
+    for v, ws in [(v, wraps) for v in vals] + broken:
+        for wrap in ws:
             for lit in (repr(v), repr(v.encode('latin-1'))):
                 src = wrap % lit
                 try:
